@@ -239,7 +239,14 @@ fn make_case(rng: &mut Rng, key_types: &[KT], strat: Strat, shape: (usize, usize
             if batch > 64 {
                 cfg.batch_size = 16; // several input batches are needed for the probe to lock
             }
-            kind = Kind::Sql(Query::Group { keys: all_keys(&keys_t), kind: GroupKind::Plain, aggs: std_aggs(variant) });
+            let mut aggs = std_aggs(variant);
+            if variant % 2 == 0 {
+                // FILTERed aggregates (one with a literal argument) through the skipped partial stage:
+                // rows converted straight to states must still honour the FILTER mask
+                aggs.push(Agg { f: AggFn::CountStar, col: 0, distinct: false, filter: Some(0) });
+                aggs.push(Agg { f: AggFn::Count, col: 0, distinct: false, filter: Some(3) });
+            }
+            kind = Kind::Sql(Query::Group { keys: all_keys(&keys_t), kind: GroupKind::Plain, aggs });
         }
         Strat::TopK => {
             intent = "topk";
